@@ -58,6 +58,10 @@ func (i *Ignore) load(rootGoitPath string) error {
 		}
 		i.paths = append(i.paths, replacedText)
 	}
+	// an ignore list that could not be read completely must not be taken for a shorter list
+	if err := scanner.Err(); err != nil {
+		return fmt.Errorf("fail to read %s: %w", goitignorePath, err)
+	}
 
 	return nil
 }
